@@ -517,3 +517,33 @@ M('C07', 'TDVP stores VH as A', TDVP, "self.psi.set_B(i0 + 1, B1, form='B')",
 M('C07', 'canonical form back sweep reads B tensors', MPS, "            M = self.get_B(i, 'A')\n",
   "            M = self.get_B(i, 'B')\n", 'FORM-canonical')
 M('C07', 'valid forms table C changed', MPS, "'C': (0.5, 0.5),", "'C': (0.5, 1.0),", 'MPS-form-table')
+
+# ---------------------------------------------------------------- C04
+PYXF = 'tenpy/linalg/_npc_helper.pyx'
+M('C04', 'python make_valid aliases (original defect)', CH,
+  'charges = np.array(charges, dtype=QTYPE)  # copy: never write into the argument',
+  'charges = np.asarray(charges, dtype=QTYPE)', 'PAIR-mutation')
+M('C04', 'pyx itranspose keeps sorted flag', PYXF,
+  '    self._qdata = np.PyArray_GETCONTIGUOUS(self._qdata[:, axes])\n    self._qdata_sorted = False\n',
+  '    self._qdata = np.PyArray_GETCONTIGUOUS(self._qdata[:, axes])\n', None)
+M('C04', 'python itranspose keeps sorted flag', NPC,
+  """        self._qdata = np.array(self._qdata[:, axes_arr], order='C')
+        self._qdata_sorted = False""",
+  """        self._qdata = np.array(self._qdata[:, axes_arr], order='C')""", 'PAIR-effects')
+M('C04', 'python _make_stride default changed', CH, 'def _make_stride(shape, cstyle=True):',
+  'def _make_stride(shape, cstyle=False):', 'PAIR-signature')
+M('C04', 'python check_valid raises TypeError', CH,
+  """    @use_cython(replacement='ChargeInfo_check_valid')
+    def check_valid(self, charges):""", """    @use_cython(replacement='ChargeInfo_check_valid')
+    def check_valid(self, charges):
+        if charges is None:
+            raise TypeError('charges is None')""", 'PAIR-raises')
+M('C04', 'replacement name typo', NPC, "@use_cython(replacement='Array__imake_contiguous')",
+  "@use_cython(replacement='Array_imake_contiguous')", 'PAIR-exists')
+M('C04', 'pyx edited without rebuild (stale extension)', PYXF,
+  'charges_ = np.array(charges, dtype=QTYPE, copy=True, order="C")',
+  'charges_ = np.array(charges, dtype=QTYPE, copy=False, order="C")', None)
+M('C04', 'python split worker leaves flag', NPC, """    res._qdata = new_qdata
+    res._qdata_sorted = False
+    res._data = new_data""", """    res._qdata = new_qdata
+    res._data = new_data""", 'PAIR-effects')
